@@ -323,6 +323,15 @@ func (r *renderer) node(fb *fileBuf, n *Node, depth int) {
 				if i == len(lines)-1 {
 					t := map[int]string{SchemaBody: "S", RegexBody: "T", EnumBody: "E"}[n.Body]
 					fb.lex = append(fb.lex, XLex{t, bb, fb.b.Len() - 1, ""})
+					// trailing blanks / a comment on the last line of the body
+					if !strings.Contains(ln, "//") {
+						switch l.Choose("postbody", 3) {
+						case 1:
+							fb.w("  \t")
+						case 2:
+							fb.w(" # c")
+						}
+					}
 				}
 				r.eol(fb)
 			}
